@@ -291,6 +291,26 @@ ADDENDA6 = {
     'C20': 'R20.1 no re-callable member hands a data member to std::move; the index is advanced after the wrapped iterator.',
 }
 
+ADDENDA7 = {
+    'C01': 'Evaluated also on the -DNDEBUG configuration when the library uses assert (a check or an insertion that lives inside an assert is gone in release builds).',
+    'C02': 'R12.13 (the parser\'s hand-written move operations take over every member) re-evaluated.',
+    'C03': 'R03.9 (= R15.11) nothing on the usage path rewrites a declared default; -DNDEBUG configuration.',
+    'C04': 'R04.14 no table indexed with a plain char; A10 decides order comparisons of a character against a literal; R11.4 re-evaluated as part of R04.5.',
+    'C05': 'R05.4 covers partial specialisations of not_filter (double negation).',
+    'C06': 'Unsigned x - k is a difference only where x >= k is known (wrap-around).',
+    'C07': 'R06.9, R06.4, R06.2 re-evaluated as part of R07.5.',
+    'C09': 'R05.1 re-evaluated as part of R09.7.',
+    'C10': 'R10.5 instantiation census over record layouts (severity without tag); must-compile cells m8 / m9.',
+    'C11': 'R11.10 who-may-write reversable_; R11.4 reads function-local static tables.',
+    'C12': 'R12.13 special members complete; R12.14 (= R02.3, R04.4).',
+    'C13': '-DNDEBUG configuration.',
+    'C15': 'R15.4 every path through base::format consults default, env hint, description; R13.1 / R13.2 re-evaluated as part of R15.8.',
+    'C16': '-DNDEBUG configuration.',
+    'C18': 'R18.9 noexcept / handlers; R18.2 judges every deleter; -U<feature macro> configurations.',
+    'C19': 'R19.9 special members of dl / symbol complete; -DNDEBUG configuration.',
+    'C20': '-DNDEBUG configuration.',
+}
+
 TECH = {
     "C02": "verbatim value-flow (carrier) analysis + must-facts on the value/next-token selection + token-syntax language inclusion (regex-literal automata, or finite-domain abstract interpretation of a hand-written character check)",
     "C04": "context-sensitive must-facts dataflow over the call graph below parse() + truth-table entailment of guard preconditions + call-graph effect rules (regex subjects, recursion, catch-handler outcomes) + finite-domain abstract interpretation of the token syntax check",
@@ -312,6 +332,8 @@ def main():
     for k, v in ADDENDA5.items():
         CLAIMS[k]["text"] = CLAIMS[k]["text"].rstrip() + " " + v
     for k, v in ADDENDA6.items():
+        CLAIMS[k]["text"] = CLAIMS[k]["text"].rstrip() + " " + v
+    for k, v in ADDENDA7.items():
         CLAIMS[k]["text"] = CLAIMS[k]["text"].rstrip() + " " + v
     for k, v in TECH.items():
         CLAIMS[k]["technique"] = v
